@@ -292,7 +292,7 @@ def post_batch(tier, seed):
     for how, js in arms:
         got = _fresh(how, js, 99)
         for j, pair in enumerate(got):
-            if pair != [here[j], here[j]]:
+            if any(d != here[j] for d in pair) or len(pair) < 2:
                 return {"violation": {"kind": "trajectory-depends-on-worker-process", "arm": how, "seed": js[j][0],
                                       "cfg": js[j][1], "digest_here": here[j], "digests_workers": pair}}
     # what the process has imported is ambient state too: a model that needs nothing but ECAgent.Core must run the same in an
